@@ -349,6 +349,55 @@ def special_keys(cls):
     return keys
 
 
+def helper_groups(obj):
+    """groups of parameters that a reconciliation helper touches together: for every method `self.X(...)` that read_parameters calls (AST of
+    the current source, transitively one level), the parameters held in the attributes `self.Y` the helper mentions.  Such parameters interact
+    after reading (synonyms, paired adjustment factors, switches), so their relative order in the file is where an order dependence would sit."""
+    cls = type(obj)
+    groups, seen = [], set()
+
+    def tree_of(fn):
+        try:
+            return ast.parse(textwrap.dedent(inspect.getsource(fn)))
+        except (OSError, TypeError, SyntaxError):
+            return None
+
+    def self_calls(tree):
+        out = []
+        for node in ast.walk(tree):
+            if isinstance(node, ast.Call) and isinstance(node.func, ast.Attribute) and isinstance(node.func.value, ast.Name) \
+                    and node.func.value.id == 'self':
+                out.append(node.func.attr)
+        return out
+    for klass in cls.__mro__:
+        fn = klass.__dict__.get('read_parameters')
+        if fn is None:
+            continue
+        t = tree_of(fn)
+        if t is None:
+            continue
+        for mname in self_calls(t):
+            if mname in seen or mname in ('read_parameters',):
+                continue
+            seen.add(mname)
+            m = getattr(cls, mname, None)
+            mt = tree_of(m) if callable(m) else None
+            if mt is None:
+                continue
+            attrs = []
+            for node in ast.walk(mt):
+                if isinstance(node, ast.Attribute) and isinstance(node.value, ast.Name) and node.value.id == 'self' and node.attr not in attrs:
+                    attrs.append(node.attr)
+            names = []
+            for a in attrs:
+                v = getattr(obj, a, None)
+                if gx.is_param(v) and hasattr(v, 'Name') and isinstance(v, (P.floatParameter, P.intParameter, P.boolParameter)) and v.Name.strip() not in names:
+                    names.append(v.Name.strip())
+            if len(names) >= 2:
+                groups.append((mname, names[:4]))
+    return groups
+
+
 _ALL_NAMES = None
 
 
@@ -387,6 +436,8 @@ def values_for(prm):
         lo, hi = float(prm.Min), float(prm.Max)
         mid = lo + (hi - lo) / 2 if math.isfinite(hi - lo) else 1.0
         out = [repr(mid)]
+        if math.isfinite(hi - lo) and hi > lo:
+            out.append(repr(lo + (hi - lo) / 8))       # a second value: synonyms given with different values must still read order-free
         if prm.Name == 'Plant Outlet Pressure':
             out.append('500')
         return out
@@ -458,6 +509,12 @@ def run_order(unit):
     if len(synth) >= 3:
         groups += [tuple(synth[:3])]
     cfg['prefix_scanned_keys'] = synth
+    # parameters that a reconciliation helper called from read_parameters touches together (synonymous rates, paired factors ...)
+    hg = helper_groups(obj0)
+    cfg['helper_groups'] = [[m, ns] for m, ns in hg]
+    for _m, ns in hg:
+        ns = [n for n in ns if n in names and values_for(names[n])]
+        groups += [g for g in itertools.combinations(ns, 2) if g not in groups]
 
     def vals_of(k, n):
         return values_for(names[k])[:n] if k in names and values_for(names[k]) else ['1']
